@@ -58,6 +58,8 @@ func runCaseA(run *hx.Run, model *hx.Model, u *universe, name string, script []s
 			out.what, out.detail = what, detail
 		}
 	}
+	blocked := false
+ops:
 	for _, line := range script[1:] {
 		w := strings.Fields(line)
 		if len(w) == 0 {
@@ -116,6 +118,13 @@ func runCaseA(run *hx.Run, model *hx.Model, u *universe, name string, script []s
 			}
 			if what, detail := s.oracle(w, res, roundsBefore); what != "" {
 				fail(what, detail)
+				if what == whatBlocked {
+					// the composite is wedged (and, if stuck, still running): give the case up
+					impl = append(impl, res.reply)
+					lines = append(lines, line)
+					blocked = true
+					break ops
+				}
 			}
 			ml := line
 			switch w[0] {
@@ -148,7 +157,7 @@ func runCaseA(run *hx.Run, model *hx.Model, u *universe, name string, script []s
 		}
 	}
 	validated := false
-	if model != nil && (exact || out.fired == 0) {
+	if model != nil && !blocked && (exact || out.fired == 0) {
 		mo := model.Batch(lines)
 		validated = true
 		run.Compared(len(mo))
